@@ -133,6 +133,21 @@ CLAIMS = {
              "decided: booked <= delegated over histories; sum of Delegate amounts = payment (C12 arithmetic).",
         technique="per-variant specialised exploration + ledger-delta shapes + index-expression pairing + dominance on MIR",
         ref="6/C02"),
+    "C03": dict(
+        text="Decides operand roles only: both State rate methods compute pool / (issued + requested) and 1 when either is zero; at all 12 "
+             "places where a pricing operation or the resync stores a recomputed X rate the numerator is the X pool stored in the same write "
+             "and the denominator is the X token's queried supply adjusted by exactly this operation's Mint/Burn of X plus the pending X "
+             "requests; every minted amount is (coin value) / (rate of the token minted) with the coin value the payment or source amount x "
+             "source rate; the payment must have the staking denom, amount > 0, and be the only coin; the State query reports the recomputed "
+             "State. NOT decided: floor exactness and numeric equality of rates.",
+        technique="operand-role matching on specialised written-value expressions (MIR provenance)",
+        ref="6/C03"),
+    "C04": dict(
+        text="Decides one clause: under bond_type = BondRewards (constant-propagation specialisation, with a positive control) no token Mint is "
+             "reachable, the stSei pool grows by the payment on every success path, and the stSei rate is recomputed over unchanged supply "
+             "plus pending requests. NOT decided: monotonicity of a quotient across states (relational, numeric) - declined.",
+        technique="constant-propagation specialisation + reachability + operand roles",
+        ref="6/C04"),
 }
 
 NA = {
